@@ -10,7 +10,7 @@ theorem lexStep_in_backtick (s : LexState) (i : Nat) (ci : CharInfo) (rest : Lis
     (hq : s.qc = '`' :: rest) (ht : s.take = 0) (hc : QuoteSafe ci) :
     lexStep s i ci = .ok { s with tok := s.tok.update ci.c i } := by
   obtain ⟨h1, h2⟩ := hc
-  unfold lexStep
+  unfold lexStep lexQuoted lexTop lexPlain
   simp only [ht, Nat.lt_irrefl, if_false, hq]
   have e1 : (ci.c == '\\') = false := by simpa using h2
   have e2 : (ci.c == '`') = false := by simpa using h1
@@ -72,7 +72,7 @@ theorem backtick_verbatim (body : List CharInfo) (bq eq : CharInfo) (hb : ∀ ci
       .ok [{ text := body.map (·.c), kind := some .name, start := some 0, stop := some body.length }] := by
   unfold tokenize tokenizeStream
   have hopen : lexStep {} 0 bq = .ok { qc := ['`'], take := 0, tok := Tok.opened .name 0, out := [] } := by
-    unfold lexStep
+    unfold lexStep lexQuoted lexTop lexPlain
     simp [h1, Tok.nonempty]
   simp only [List.cons_append, lexLoop, hopen]
   rw [lexLoop_in_backtick body [eq] 1 _ [] rfl rfl hb]
@@ -87,7 +87,7 @@ theorem backtick_verbatim (body : List CharInfo) (bq eq : CharInfo) (hb : ∀ ci
   have hclose : lexStep { qc := ['`'], take := 0, tok := updAll (Tok.opened .name 0) body 1, out := [] }
       (1 + body.length) eq
       = .ok { qc := [], take := 0, tok := Tok.fresh, out := [updAll (Tok.opened .name 0) body 1] } := by
-    unfold lexStep
+    unfold lexStep lexQuoted lexTop lexPlain
     simp [h2, hnon]
   simp only [lexLoop, hclose]
   simp only [List.isEmpty_nil, Bool.not_true, Bool.false_eq_true, if_false, Tok.fresh, Tok.nonempty,
@@ -108,7 +108,7 @@ theorem whitespace_noop (s : LexState) (i : Nat) (ci : CharInfo)
     lexStep s i ci = .ok s := by
   simp only [List.mem_cons, List.mem_nil_iff, or_false, not_or] at hc
   obtain ⟨c1, c2, c3, c4, c5, c6, c7⟩ := hc
-  unfold lexStep
+  unfold lexStep lexQuoted lexTop lexPlain
   simp only [ht, Nat.lt_irrefl, if_false, hq]
   have f1 : (ci.c == '%') = false := by simpa using c1
   have f2 : (ci.c == '{') = false := by simpa using c2
@@ -130,7 +130,7 @@ theorem whitespace_flushes (s : LexState) (i : Nat) (ci : CharInfo)
     lexStep s i ci = .ok { s with out := s.tok :: s.out, tok := Tok.fresh } := by
   simp only [List.mem_cons, List.mem_nil_iff, or_false, not_or] at hc
   obtain ⟨c1, c2, c3, c4, c5, c6, c7⟩ := hc
-  unfold lexStep
+  unfold lexStep lexQuoted lexTop lexPlain
   simp only [ht, Nat.lt_irrefl, if_false, hq]
   have f1 : (ci.c == '%') = false := by simpa using c1
   have f2 : (ci.c == '{') = false := by simpa using c2
